@@ -49,8 +49,10 @@ def osc_rematch_pattern(pattern, address):
     pattern = re.sub(_rewrite_pattern, rewrite_func, pattern)
     try:
         return re.fullmatch(pattern, address) is not None
-    except re.error:
-        return False  # A malformed pattern ('/a[', '/a{x') matches nothing.
+    except (re.error, RecursionError):
+        # A malformed pattern ('/a[', '/a{x') matches nothing, neither does
+        # one nested deeper than the regex compiler can follow.
+        return False
 
 
 ### Option 2 ###
